@@ -1,21 +1,21 @@
 SPECIFICATION Spec
 CONSTANTS
-  Inst = {1}
-  InitUp = {1}
+  Inst = {1, 2}
+  InitUp = {2}
   Alerts = {"a"}
   GW = 1
   GI = 3
   RI = 20
   PT = 3
-  ST = 0
+  ST = 2
   MinT = 10
   Maint = 1000
   MaxDelay = 1
-  Quantum = 4
-  MaxTime = 20
+  Quantum = 3
+  MaxTime = 30
   Rule = "sum"
   Off = {}
-  Lim <- QStop
+  Lim <- FaultStop
 VIEW View
 INVARIANTS AtLeastOnce NoDuplicateWhenHealthy SilenceSurvivesRestart NoRepeatAfterRestart ReadyEventually Sane
 CHECK_DEADLOCK FALSE
